@@ -145,6 +145,7 @@ type State struct {
 	refs      []smt.T
 	refsMaybe []maybeRef
 	callRes   map[ssa.CallInstruction][]smt.T // results of the calls executed on this path (latest execution)
+	loopEntry map[*ssa.BasicBlock]*State      // state in which each loop (by header) was entered on this path: atloop(e)
 }
 
 func (s *State) clone() *State {
@@ -166,6 +167,25 @@ func (s *State) clone() *State {
 			n.callRes[k] = v
 		}
 	}
+	if s.loopEntry != nil {
+		n.loopEntry = make(map[*ssa.BasicBlock]*State, len(s.loopEntry))
+		for k, v := range s.loopEntry {
+			n.loopEntry[k] = v
+		}
+	}
+	return n
+}
+
+// enterLoop records the state in which the loop with header b is entered (for atloop(e) in its invariants and in call
+// clauses inside its body).
+func (s *State) enterLoop(b *ssa.BasicBlock) *State {
+	n := s.clone()
+	snap := s.clone()
+	snap.loopEntry = nil
+	if n.loopEntry == nil {
+		n.loopEntry = map[*ssa.BasicBlock]*State{}
+	}
+	n.loopEntry[b] = snap
 	return n
 }
 
@@ -541,6 +561,7 @@ func (x *Exec) execBlock(fr *frame, st *State, b *ssa.BasicBlock, pred *ssa.Basi
 				x.assertInvNamed(fr, st, name, lc, "inv-step")
 				return nil
 			}
+			st = st.enterLoop(b)
 			x.assertInvNamed(fr, st, name, lc, "inv-init")
 			st = x.havocLoop(fr, st, li)
 			x.assumeInv(fr, st, li, lc)
@@ -554,6 +575,7 @@ func (x *Exec) execBlock(fr *frame, st *State, b *ssa.BasicBlock, pred *ssa.Basi
 			x.frameObligations(st, fmt.Sprintf("loop%d-step", li.Ordinal))
 			return nil
 		}
+		st = st.enterLoop(b)
 		x.assertInv(fr, st, li, lc, "inv-init")
 		before := st
 		st = x.havocLoop(fr, st, li)
